@@ -239,7 +239,13 @@ def norm_out(res, with_cov):
         oo = {"arr": [int(v) for v in order_out.tolist()]}
     else:
         oo = int(order_out)
+    # np.shape of the arrays exactly as returned / stored, taken BEFORE the flattening below (compared with the model's
+    # ssiShapes / plscfShapes in same_out)
+    shapes = {"fn": list(np.shape(Fn)), "xi": list(np.shape(Xi)), "phi": list(np.shape(Phi))}
+    if with_cov and res[4] is not None:
+        shapes.update({"fn_cov": list(np.shape(res[4])), "xi_cov": list(np.shape(res[5])), "phi_cov": list(np.shape(res[6]))})
     out = {
+        "shapes": shapes,
         "fn": [float(v) for v in np.asarray(Fn).reshape(-1)],
         "xi": [float(v) for v in np.asarray(Xi).reshape(-1)],
         "phi": [[complex(z) for z in m] for m in _phi_modes(Phi)],
@@ -278,11 +284,23 @@ def call_plscf(case):
         return {"exc": type(e).__name__}
 
 
+def order_json(order):
+    """the Python object passed as `order`, for the driver: "find_min" / another str, bool, int, list of int stay themselves;
+    anything else (None, np.int64, float, tuple, ...) travels as {"other": <type name>} (PyOrder.other)"""
+    if isinstance(order, (str, bool)):
+        return order
+    if type(order) is int:
+        return order
+    if type(order) is list and all(type(o) is int for o in order):
+        return list(order)
+    return {"other": type(order).__name__}
+
+
 def model_inp(case, which):
     Phi = case["Phi"]
     inp = {
         "freq": [R(float(f)) for f in case["freq"]], "Fn": omat(case["Fn"]), "Xi": omat(case["Xi"]), "Phi": ophi(Phi), "d": int(Phi.shape[2]),
-        "order": case["order"], "Lab": None if case["Lab"] is None else case["Lab"].tolist(), "rtol": R(case["rtol"]),
+        "order": order_json(case["order"]), "Lab": None if case["Lab"] is None else case["Lab"].tolist(), "rtol": R(case["rtol"]),
     }
     if which == "plscf":
         inp["deltaf"] = R(case["deltaf"])
@@ -307,6 +325,8 @@ def same_out(model, impl):
     if "exc" in model or "exc" in impl:
         return model.get("exc") == impl.get("exc")
     if model["order_out"] != impl["order_out"]:
+        return False
+    if "shapes" in model and "shapes" in impl and model["shapes"] != impl["shapes"]:
         return False
     for k in ("fn", "xi", "fn_cov", "xi_cov"):
         if len(model[k]) != len(impl[k]) or not all(_feq(fl(a), b) for a, b in zip(model[k], impl[k])):
@@ -428,6 +448,66 @@ def corr_find_min_depth(ctx):
         c7["Lab"] = case["Lab"] * 7
         one(c7, "plscf", "witness")
         ctx.count("corr_witness_" + name)
+
+
+# ----------------------------------------------------------------------------- every Python value of `order`
+def odd_order(rng, cols, nreq):
+    """(tag, order): values of `order` outside int >= 0 / list of them / 'find_min'"""
+    k = rng.randrange(12)
+    if k == 0:
+        return "None", None
+    if k == 1:
+        return "np.int64", np.int64(rng.randrange(cols))
+    if k == 2:
+        return "True", True
+    if k == 3:
+        return "False", False
+    if k in (4, 5):
+        return "neg-int", -rng.randint(1, cols)
+    if k == 6:
+        return "neg-int-out-of-range", -cols - rng.randint(1, 2)
+    if k == 7:
+        return "float", float(rng.randrange(cols))
+    if k == 8:
+        return "tuple", tuple(rng.randrange(cols) for _ in range(nreq))
+    if k == 9:
+        return "str", rng.choice(["findmin", "find_min ", "min", ""])
+    if k == 10:
+        return "neg-list", [rng.randint(-cols, cols - 1) for _ in range(nreq)]
+    o = [rng.randint(-cols, cols - 1) for _ in range(nreq)]
+    if o:
+        o[rng.randrange(len(o))] = -cols - rng.randint(1, 2)
+    return "neg-list-out-of-range", o
+
+
+def corr_order_kinds(ctx):
+    """SSI_mpe / pLSCF_mpe vs ssiMpePy / plscfMpePy on every kind of Python object passed as `order`:
+    exception class, order_out, values and raw shapes"""
+    for _ in range(ctx.n(500, 5000)):
+        case = gen_case(ctx, maxr=6, maxc=6)
+        rows, cols, d = case["Phi"].shape
+        if ctx.rng.random() < 0.12:
+            case["freq"] = []
+        if ctx.rng.random() < 0.1:
+            case["Fn"][:, :] = np.nan      # order=True then meets an all-NaN table
+        tag, order = odd_order(ctx.rng, cols, len(case["freq"]))
+        case["order"] = order
+        case["kind"] = tag
+        for which, call, op, w in (("ssi", call_ssi, "ssi_mpe", case["rtol"]), ("plscf", call_plscf, "plscf_mpe", case["deltaf"])):
+            if near_edge(case, w):
+                ctx.skipped += 1
+                ctx.count("corr_skipped_near_edge")
+                continue
+            inp = model_inp(case, which)
+            impl = call(case)
+            model = ctx.model(op, **inp)
+            if str(model.get("exc", "")).startswith("unmodelled"):
+                ctx.skipped += 1
+                ctx.count(f"corr_{which}_order_{tag}_unmodelled_row_block")
+                continue
+            fn = f"{'SSI_mpe' if which == 'ssi' else 'pLSCF_mpe'}[order-kinds]"
+            ctx.corr(fn, same_out(model, impl), inp, model, impl, (tag, rows, cols, len(case["freq"]), outcome(impl)))
+            ctx.count(f"corr_{which}_order_{tag}_{outcome(impl) if 'exc' in impl else ('found' if impl['fn'] else 'nothing')}")
 
 
 # ----------------------------------------------------------------------------- class level
@@ -552,10 +632,13 @@ def correspondence(ctx):
             fn = f"{'SSI_mpe' if which == 'ssi' else 'pLSCF_mpe'}[{case['kind']}]"
             ctx.corr(fn, ok, inp, model, impl, (rows, cols, len(case["freq"]), outcome(impl)))
             ctx.count(f"corr_{which}_{case['kind']}_{outcome(impl) if 'exc' in impl else ('found' if impl['fn'] else 'nothing')}")
+            if "exc" not in impl:
+                ctx.count(f"corr_shape_{which}_{case['kind']}_fn{len(impl['shapes']['fn'])}d_phi{len(impl['shapes']['phi'])}d" + ("_cov" if "fn_cov" in impl["shapes"] else ""))
         if k == 0:
             ctx.sample({"freq": case["freq"], "order": case["order"], "rtol": case["rtol"], "rows": rows, "cols": cols,
                         "Fn_col0": case["Fn"][:, 0].tolist()})
     corr_find_min_depth(ctx)
+    corr_order_kinds(ctx)
     # through the classes: stored fields == function outputs == model
     for (kind, alg, ss) in real_runs(ctx, ctx.n(6, 15)):
         for _ in range(ctx.n(15, 60)):
